@@ -301,7 +301,8 @@ def _clone_semantic(chk):
     results = []
     try:
         w = CloneWorld(chk.repo)
-        for label, root in (("every verb class, aliases, join of two sources, union", w.sample()), ("self-join of one source with a partially aliased aggregate", w.sample_self_join())):
+        for label, root in (("every verb class, aliases, join of two sources, union", w.sample()), ("self-join of one source with a partially aliased aggregate", w.sample_self_join()),
+                            ("references of the origin table after collect() / transfer_col_references", w.sample_foreign_refs())):  # fmt: skip
             before = ExprWorld.children_struct(root)
             cl = w.p.call(w.p.method(root, "clone"), [])
             after = ExprWorld.children_struct(root)
